@@ -855,14 +855,25 @@ def version_tables(ctx, rule):
         magic = [b for b, t in wh.calls() if A.cname(t).endswith("::write_all") and any(
             x.k == "const" and ((x.a[0] == "bytes" and tuple(x.a[1]) == (70, 74, 76)) or (x.a[0] == "def" and "MAGIC_BYTES" in str(x.a[1])))
             for a in t["args"] for x in A.walk(og.of_operand(a)))]
-        tab = [(b, t) for b, t in wh.calls() if A.cname(t) == enc_fn.id]
+        # the table is consulted either directly (`u8::from(self)`) or through the blanket `Into` (`self.into()`)
+        tab = [(b, t) for b, t in wh.calls() if A.cname(t) == enc_fn.id or
+               (A.cname(t).endswith("::into") and wh.local_ty(t["dest"]["l"]) == "u8" and t["args"] and
+                "FormatVersion" in wh.local_ty(((t["args"][0].get("move") or t["args"][0].get("copy") or {}).get("l", 0))))]
         wr = [(b, t) for b, t in wh.calls() if A.cname(t).endswith("::write_u8")]
         ok = len(magic) == 1 and len(tab) == 1 and len(wr) == 1
         detail = "write_all(MAGIC)=%d, table call=%d, write_u8=%d" % (len(magic), len(tab), len(wr))
         if ok:
             a1 = wr[0][1]["args"][1]
             pl = a1.get("move") or a1.get("copy") or {}
-            from_table = pl.get("l") == tab[0][1]["dest"]["l"] and not pl.get("p")
+            cur, hops = pl.get("l"), 0
+            while cur is not None and cur != tab[0][1]["dest"]["l"] and hops < 6:
+                # follow plain `let byte = <local>` copies back to their source
+                defs = [st["rv"]["a"] for blk in wh.blocks if not blk["cleanup"] for st in blk["s"]
+                        if st["p"]["l"] == cur and not st["p"]["p"] and st["rv"]["k"] == "use"]
+                src = (defs[0].get("move") or defs[0].get("copy")) if len(defs) == 1 else None
+                cur = src["l"] if src and not src["p"] else None
+                hops += 1
+            from_table = cur == tab[0][1]["dest"]["l"] and not pl.get("p")
             self_arg = A.tstr(og.of_operand(tab[0][1]["args"][0])).startswith("P1")
             order = A.dominates(wh, magic[0], wr[0][0]) and A.dominates(wh, tab[0][0], wr[0][0])
             oks = [b for b, blk in enumerate(wh.blocks) if not blk["cleanup"] for st in blk["s"] if st["rv"]["k"] == "agg" and st["rv"].get("variant") == "Ok" and st["p"]["l"] == 0 and not st["p"]["p"]]
